@@ -400,8 +400,30 @@ func RunVectorHmm(c *core.Ctx, checkEM bool) {
 	for i := 0; i < m; i++ {
 		norm(tr[i*m : (i+1)*m])
 	}
+	// state map (tied emissions) and start / final state restrictions
+	var stateMap, startStates, finalStates []int
+	nem := m
+	if t.Bool(1, 4) {
+		// two states share emission 0
+		stateMap = make([]int, m)
+		for i := 1; i < m; i++ {
+			stateMap[i] = i - 1
+		}
+		nem = m - 1
+	}
+	if t.Bool(1, 5) {
+		startStates = []int{t.Choose(m)}
+	}
+	if t.Bool(1, 5) {
+		finalStates = []int{t.Choose(m)}
+		if checkEM && c.Avoid["C16-F1"] {
+			// open finding C16-F1: with a final state restriction the
+			// transition update is not an EM step and the likelihood decreases
+			finalStates = nil
+		}
+	}
 	mkEmissions := func() []st.ScalarEstimator {
-		es := make([]st.ScalarEstimator, m)
+		es := make([]st.ScalarEstimator, nem)
 		for i := range es {
 			if kind == 0 {
 				th := []float64{0.6 - 0.2*float64(i), 0.1 + 0.1*float64(i), 0.3 + 0.1*float64(i)}
@@ -451,7 +473,7 @@ func RunVectorHmm(c *core.Ctx, checkEM bool) {
 			}
 		}
 	}
-	c.Logf("%s states=%d, %d Baum-Welch steps, %d records, ChunkSize=%d OptimizeEmissions=%v OptimizeTransitions=%v, pool %s", what, m, steps, nrec, chunk, optE, optT, cfg)
+	c.Logf("%s states=%d, %d Baum-Welch steps, %d records, ChunkSize=%d OptimizeEmissions=%v OptimizeTransitions=%v stateMap=%v start=%v final=%v, pool %s", what, m, steps, nrec, chunk, optE, optT, stateMap, startStates, finalStates, cfg)
 	for r, v := range recs {
 		c.Logf("  record %d: %v", r, vecOf(v))
 	}
@@ -472,7 +494,7 @@ func RunVectorHmm(c *core.Ctx, checkEM bool) {
 			like = append(like, likelihood)
 		}}
 		var err error
-		est, err = ve.NewHmmEstimator(ad.NewDenseFloat64Vector(append([]float64(nil), pi...)), ad.NewDenseFloat64Matrix(append([]float64(nil), tr...), m, m), nil, nil, nil, mkEmissions(), math.Inf(-1), steps, hook)
+		est, err = ve.NewHmmEstimator(ad.NewDenseFloat64Vector(append([]float64(nil), pi...)), ad.NewDenseFloat64Matrix(append([]float64(nil), tr...), m, m), stateMap, startStates, finalStates, mkEmissions(), math.Inf(-1), steps, hook)
 		if err != nil {
 			o.err = err.Error()
 			return o
